@@ -2,7 +2,7 @@
    bool, option, list, prod, unit, sumbool map to the OCaml types; nat, N, positive stay
    inductive).  The output files model.ml/model.mli are written to the working directory. *)
 From Coq Require Extraction ExtrOcamlBasic.
-From FR Require Import Base State Utf8 Ast Analyze Sem Vm Compile Escape Api Expand.
+From FR Require Import Base State Utf8 Ast Analyze Parse Sem Vm Compile Escape Api Expand.
 Extraction Language OCaml.
 Extraction "model.ml"
   st_new exec rexec r_new abs
@@ -12,4 +12,5 @@ Extraction "model.ml"
   m_init sp_init cap_get cap_len
   steps expansion check x_escape expander_default expander_python
   escape push_quoted is_word_cp fold_cp
+  Parse.parse
   N.add N.mul N.of_nat N.to_nat N.eqb.
